@@ -156,6 +156,10 @@ pub fn t_cdf(nu: f64, t: f64) -> f64 {
 pub fn pois_cdf(lam: f64, k: f64) -> f64 {
     if k < 0.0 {
         0.0
+    } else if lam > 1e6 {
+        // normal approximation with the first Cornish-Fisher (skewness) correction; error O(1/lam)
+        let w = (k.floor() + 0.5 - lam) / lam.sqrt();
+        norm_cdf(w - (w * w - 1.0) / (6.0 * lam.sqrt()))
     } else {
         gamma_q(k.floor() + 1.0, lam)
     }
